@@ -388,6 +388,12 @@ func thriftTargets(r *h.Rand, desc *thrift.TypeDescriptor, v *tref.Val, root *ge
 				if x.IsError() {
 					return
 				}
+				// whatever an accessor hands back without an error is a piece of the input
+				if raw := x.Raw(); len(raw) > len(in) {
+					panic(fmt.Sprintf("accessor returned a node of %d bytes from an input of %d", len(raw), len(in)))
+				}
+				x.Fork()
+				x.Len()
 				x.Foreach(func(p generic.Path, v generic.Value) bool { return true }, gopts)
 				x.ForeachKV(func(k, v generic.Value) bool { return true }, gopts)
 				if depth > 0 {
